@@ -57,6 +57,11 @@ var stmtFiles = []string{
 	"jsonrpc2/local.go",
 	"jsonrpc2/ws/gorilla/codec.go",
 	"agent/agent.go",
+	"request/request.go",
+	"request/node.go",
+	"request/address.go",
+	"jsonrpc2/method.go",
+	"jsonrpc2/types.go",
 }
 
 type budget struct {
